@@ -66,13 +66,26 @@ def _ledger_reason_holds(cx, rel, fn_, target, how):
         return False, "no `if acc.is_some() { return None }` around the assignment of the accumulator"
     if how == "cardinality_only":
         # everything the loop does with an element is pushing it onto a Vec that is afterwards only matched as a slice / measured
-        loop = next((a for a in par.ancestors(target) if a["k"] == "For"), None)
-        if loop is None:
-            return False, "the iteration is not a for loop"
-        vecs = {c["recv"]["segs"][0] for c in S.find(loop["body"], "MethodCall") if c["method"] == "push" and c["recv"]["k"] == "Path" and len(c["recv"]["segs"]) == 1}
-        if len(vecs) != 1 or selecting_exits(loop["body"]):
-            return False, "the loop does more than collect candidates"
-        v = next(iter(vecs))
+        loop = next((a for a in par.ancestors(target) if a["k"] == "For" and S.span_contains(a["iter"]["sp"], target["sp"])), None)
+        if loop is not None:
+            vecs = {c["recv"]["segs"][0] for c in S.find(loop["body"], "MethodCall") if c["method"] == "push" and c["recv"]["k"] == "Path" and len(c["recv"]["segs"]) == 1}
+            if len(vecs) != 1 or selecting_exits(loop["body"]):
+                return False, "the loop does more than collect candidates"
+            v = next(iter(vecs))
+        else:
+            # the iterator form: `let v: Vec<_> = once(current).chain(deps.values()).filter_map(..).collect();`
+            loc = next((a for a in par.ancestors(target) if a["k"] == "Local" and a["pat"]["k"] in ("PIdent", "PType") and a.get("init") is not None
+                        and a["init"]["k"] == "MethodCall" and a["init"]["method"] == "collect"), None)
+            if loc is None:
+                return False, "the iteration is neither a for loop nor collected into a local"
+            chain = []
+            e = loc["init"]
+            while e["k"] == "MethodCall":
+                chain.append(e["method"])
+                e = e["recv"]
+            if set(chain) & (ORDER_PICKING_TERMINALS | ORDER_SENSITIVE_ADAPTORS):
+                return False, f"the chain picks or numbers elements ({sorted(set(chain) & (ORDER_PICKING_TERMINALS | ORDER_SENSITIVE_ADAPTORS))})"
+            v = S.pat_bindings(loc["pat"])[0]
         for u in S.walk(fn_.body):
             if u["k"] == "Path" and u["segs"] == [v]:
                 pu = par.parent(u)
@@ -80,7 +93,7 @@ def _ledger_reason_holds(cx, rel, fn_, target, how):
                     continue
                 if pu["k"] == "MethodCall" and par.role(u) == "recv" and pu["method"] in ("push", "as_slice", "len", "is_empty"):
                     continue
-                if pu["k"] in ("Local", "PIdent"):
+                if pu["k"] in ("Local", "PIdent", "PType"):
                     continue
                 return False, f"`{v}` is also used by {pu['k']}{'.' + pu.get('method', '') if pu['k'] == 'MethodCall' else ''} at line {u['sp'][0]}"
         return True, f"`{v}` is only pushed to and matched as a slice"
